@@ -44,9 +44,9 @@ func C15(c *core.Ctx) error {
 	if err := c.BuildRepoPkg(".", "./internal/verifx/c15", bin); err != nil {
 		return err
 	}
-	depth := 3
+	depth := 4
 	if !core.Quick(c.Tier) {
-		depth = 4
+		depth = 6
 	}
 	initials := []string{"empty", "vars", "preimport", "dstvars", "inpkg-empty", "inpkg-vars", "inpkg-dstvars", "inpkg-preimport"}
 	var mu sync.Mutex
